@@ -478,6 +478,11 @@ func descD(v ssa.Value, depth int) string {
 		}
 		return s + "]"
 	case *ssa.Extract:
+		if c, ok := x.Tuple.(*ssa.Call); ok {
+			if d, ok := computedIntResult(c, x.Index, depth); ok {
+				return d
+			}
+		}
 		if nx, ok := x.Tuple.(*ssa.Next); ok {
 			if r, ok := nx.Iter.(*ssa.Range); ok {
 				switch x.Index {
@@ -511,6 +516,11 @@ func descD(v ssa.Value, depth int) string {
 		name := calleeName(x)
 		if name == "builtin:len" || name == "builtin:cap" {
 			return "len(" + descD(x.Call.Args[0], depth+1) + ")"
+		}
+		if x.Call.Signature().Results().Len() == 1 {
+			if d, ok := computedIntResult(x, 0, depth); ok {
+				return d
+			}
 		}
 		var args []string
 		if x.Call.IsInvoke() {
@@ -877,6 +887,7 @@ func inductionName(header *ssa.BasicBlock) string {
 			depth++
 		}
 	}
+	depth += loopDepthOffset[header.Parent()]
 	switch {
 	case depth <= 1:
 		return "#i"
@@ -899,6 +910,20 @@ var paramBindV = map[*ssa.Parameter]ssa.Value{}
 
 // paramBindA: integer arguments as affine expressions over system parameters and descriptors.
 var paramBindA = map[*ssa.Parameter]Affine{}
+
+// loopDepthOffset: a helper examined on behalf of a call inside a loop names its own loops one level deeper
+// (the caller's `#i` stays the caller's).
+var loopDepthOffset = map[*ssa.Function]int{}
+
+func loopDepthOf(b *ssa.BasicBlock) int {
+	depth := 0
+	for h := b; h != nil; h = h.Idom() {
+		if l := findLoop(h); l != nil && l.Body[b] {
+			depth++
+		}
+	}
+	return depth
+}
 
 // bindStructParams: while a helper's return term is inlined into its caller, an object that a call in the caller
 // produced keeps that identity inside the helper (instead of the type-rooted name).
@@ -946,7 +971,20 @@ func bindCall(c ssa.CallInstruction, g *ssa.Function, f func()) {
 			}
 		}
 	}
+	oldOff, hadOff := loopDepthOffset[g]
+	if c.Block() != nil && c.Parent() != g {
+		if off := loopDepthOf(c.Block()) + loopDepthOffset[c.Parent()]; off > 0 {
+			loopDepthOffset[g] = off
+		} else {
+			delete(loopDepthOffset, g)
+		}
+	}
 	defer func() {
+		if hadOff {
+			loopDepthOffset[g] = oldOff
+		} else {
+			delete(loopDepthOffset, g)
+		}
 		for _, x := range sv {
 			if x.had {
 				paramBind[x.p] = x.old
@@ -974,6 +1012,9 @@ func bindingSig(fn *ssa.Function) string {
 		return ""
 	}
 	var sb strings.Builder
+	if off := loopDepthOffset[fn]; off > 0 {
+		fmt.Fprintf(&sb, "|depth+%d", off)
+	}
 	for _, p := range fn.Params {
 		if b, ok := paramBind[p]; ok {
 			sb.WriteString("|")
@@ -1049,6 +1090,45 @@ func originD(v ssa.Value, depth int) ssa.Value {
 	return v
 }
 
+// computedIntResult: an integer computed by an unexported helper of the module is named by the expression the
+// helper computes (with its parameters bound to the call's arguments), when all returns of the helper agree on it:
+// `f, b = scaled(factor, bound)` names f as `(factor*4)`, as the inline code would.
+var computedIntBusy = map[*ssa.Function]bool{}
+
+func computedIntResult(c *ssa.Call, k, depth int) (string, bool) {
+	g := c.Call.StaticCallee()
+	if g == nil || g.Blocks == nil || depth > 20 || computedIntBusy[g] || len(computedIntBusy) > 2 {
+		return "", false
+	}
+	res := g.Signature.Results()
+	if k >= res.Len() || !isIntegerType(res.At(k).Type()) || !inModuleFn(g) {
+		return "", false
+	}
+	if g.Object() == nil || g.Object().Exported() || g.Parent() != nil {
+		return "", false
+	}
+	computedIntBusy[g] = true
+	defer delete(computedIntBusy, g)
+	out, n := "", 0
+	bindCall(c, g, func() {
+		for _, r := range returnsOf(g) {
+			d := descD(r.Results[k], depth+2)
+			if n == 0 || d == out {
+				out = d
+				if n == 0 {
+					n = 1
+				}
+			} else {
+				n = 2
+			}
+		}
+	})
+	if n != 1 || out == "" || strings.Contains(out, "#i") || strings.Contains(out, "#j") || strings.Contains(out, "#k") || strings.Contains(out, "phi(") || strings.Contains(out, "new:") || strings.Contains(out, "*ssa.") {
+		return "", false // (values that exist only inside the helper keep the call's name)
+	}
+	return out, true
+}
+
 // descNN describes a value that is known (or required elsewhere) to be non-nil: for the result of a
 // module-internal helper it is the descriptor all non-nil returns of the helper agree on, taken with the
 // helper's parameters bound to the call's arguments (`x := p.lookup(); if x == nil {...}; use(x)`).
@@ -1056,12 +1136,20 @@ func descNN(v ssa.Value) string { return descNND(v, 0) }
 
 func descNND(v ssa.Value, depth int) string {
 	d := desc(v)
+	k := 0
 	c, ok := v.(*ssa.Call)
+	if ex, isEx := v.(*ssa.Extract); isEx {
+		c, ok = ex.Tuple.(*ssa.Call)
+		k = ex.Index
+	}
 	if !ok || depth > 3 {
 		return d
 	}
 	g := staticCallee(c)
-	if g == nil || !inModuleFn(g) || g.Blocks == nil || g.Signature.Results().Len() != 1 || bigMethod(c) != "" || isBigWrapperFn(g) {
+	if g == nil || !inModuleFn(g) || g.Blocks == nil || k >= g.Signature.Results().Len() || bigMethod(c) != "" || isBigWrapperFn(g) {
+		return d
+	}
+	if _, isEx := v.(*ssa.Extract); !isEx && g.Signature.Results().Len() != 1 {
 		return d
 	}
 	if g.Object() != nil && g.Object().Exported() {
@@ -1071,10 +1159,10 @@ func descNND(v ssa.Value, depth int) string {
 	bindCall(c, g, func() {
 		dead := deadBlocks(g)
 		for _, r := range returnsOf(g) {
-			if dead[r.Block()] || isNilConst(r.Results[0]) {
+			if dead[r.Block()] || isNilConst(r.Results[k]) {
 				continue
 			}
-			o := descNND(r.Results[0], depth+1)
+			o := descNND(r.Results[k], depth+1)
 			if n == 0 || o == res {
 				res = o
 				if n == 0 {
@@ -1089,6 +1177,42 @@ func descNND(v ssa.Value, depth int) string {
 		return res
 	}
 	return d
+}
+
+// bindPath runs f with the parameters of target bound along the (unique, static, same-package) call chain
+// fn -> ... -> target of at most depth calls; it reports whether such a chain exists. With target == fn it
+// just runs f.
+func bindPath(fn, target *ssa.Function, depth int, f func()) bool {
+	if fn == target {
+		f()
+		return true
+	}
+	if depth <= 0 || fn == nil || fn.Blocks == nil {
+		return false
+	}
+	for _, c := range callsIn(fn) {
+		h := staticCallee(c)
+		if h == nil || h.Blocks == nil || h.Pkg != fn.Pkg || h == fn || isBigWrapperFn(h) {
+			continue
+		}
+		done := false
+		bindCall(c, h, func() { done = bindPath(h, target, depth-1, f) })
+		if done {
+			return true
+		}
+	}
+	return false
+}
+
+// callsTo: the call sites in fn whose static callee is g.
+func callsTo(fn, g *ssa.Function) []ssa.CallInstruction {
+	var out []ssa.CallInstruction
+	for _, c := range callsIn(fn) {
+		if staticCallee(c) == g {
+			out = append(out, c)
+		}
+	}
+	return out
 }
 
 // deepVisit calls visit for fn and, with their parameters bound to the call's arguments, for the
